@@ -321,6 +321,10 @@ pub fn disturbance_pass<T: Sync>(
                 p *= 2;
             }
             starts.retain(|x| *x < len);
+            if len <= 72 {
+                // short lists: every item gets its turn as the first call
+                starts = (0..len).collect();
+            }
             let start = starts[r % starts.len()];
             let descending_first = r >= starts.len();
             let order: Vec<usize> = if descending_first { (0..len).rev().chain(0..len).collect() } else { (0..len).chain((0..len).rev()).collect() };
